@@ -259,8 +259,18 @@ func (g *G) FlowMod() (util.Message, *spec.Node) {
 		spec.U("priority", uint64(f.Priority)), spec.U("buffer_id", uint64(f.BufferId)), spec.U("out_port", uint64(f.OutPort)),
 		spec.U("out_group", uint64(f.OutGroup)), spec.U("flags", uint64(f.Flags)))
 	g.Budget -= 56
-	m, mn := g.Match(14)
-	f.Match = *m
+	var mn *spec.Node
+	if g.Bool("match_built_in_place") {
+		// fields go into the match the constructor made, while a second flow-mod is being prepared at the same
+		// time (two rules installed together): each message's match is its own
+		sib := of.NewFlowMod()
+		mn = g.MatchInto(&f.Match, 14, func() { sib.Match.AddField(*of.NewInPortField(0x5a5a5a5a)) })
+		g.Label("match_built_in_place_next_to_another_flow_mod")
+	} else {
+		var m *of.Match
+		m, mn = g.Match(14)
+		f.Match = *m
+	}
 	n.Add(mn)
 	k := g.ListLen("ninstr", 8)
 	del := cmd == 3 || cmd == 4
